@@ -912,7 +912,7 @@ fn sol_values(nvars: u32, sol: SolutionReference<'_>) -> Value {
             Ok(x) => out.push(json!(x)),
             Err(_) => {
                 let _ = take_panic();
-                out.push(Value::Null)
+                out.push(json!(UNFIXED))
             }
         }
     }
